@@ -43,4 +43,18 @@ var Presets = map[string]*Config{
 			Fuel: map[string]string{"findFileMarker#1": "data.length + 1"},
 		}
 	}(),
+	"script": func() *Config {
+		lib := bytesLib()
+		lib["ts.expand"] = LibFn{Lean: "GIV.Script.expand env", Ret: TBytes}
+		return &Config{
+			Lib:          lib,
+			Globals:      map[string]Global{},
+			Structs:      map[string]*Struct{},
+			Fuel:         map[string]string{"parse#1": "line.length + 1"},
+			ExtraParams:  []Param{{Lean: "env", Type: "GIV.Script.Env"}},
+			Abort:        map[string]bool{"ts.Fatalf": true},
+			IgnoreAssign: map[string]bool{"ts.line": true},
+			Rename:       map[string]string{"parse": "parse"},
+		}
+	}(),
 }
